@@ -528,6 +528,23 @@ class Normaliser:
                 q = getattr(cur, "_qual", None)
                 if cur is not None and q:
                     local = [b for b in cur.body if isinstance(b, ast.FunctionDef) and b.name == f.id]
+                    holder_: List[ast.stmt] = cur.body
+                    if not local:
+                        # ... or defined in a nested block right in front of the statement that calls it
+                        for blk_owner in _walk_scope(cur):
+                            for fld_ in ("body", "orelse", "finalbody"):
+                                lst_ = getattr(blk_owner, fld_, None)
+                                if not isinstance(lst_, list):
+                                    continue
+                                for i_ in range(1, len(lst_)):
+                                    if isinstance(lst_[i_ - 1], ast.FunctionDef) and lst_[i_ - 1].name == f.id and any(
+                                            x is call for x in ast.walk(lst_[i_])) and not isinstance(lst_[i_], ast.FunctionDef):
+                                        n_loads = sum(1 for x in ast.walk(cur) if isinstance(x, ast.Name) and x.id == f.id
+                                                      and isinstance(x.ctx, ast.Load) and any(x is y for y in ast.walk(lst_[i_])))
+                                        n_all = sum(1 for x in lst_[i_:] for y in ast.walk(x) if isinstance(y, ast.Name)
+                                                    and y.id == f.id and isinstance(y.ctx, ast.Load))
+                                        if n_loads == n_all:
+                                            local, holder_ = [lst_[i_ - 1]], lst_
                     stores_ = sum(1 for n in _walk_scope(cur) if isinstance(n, ast.Name) and n.id == f.id
                                   and not isinstance(n.ctx, ast.Load)) if local else 0
                     if len(local) == 1 and stores_ == 0 and self.known is not None and \
@@ -536,7 +553,7 @@ class Normaliser:
                             and not any(isinstance(x, ast.Call) and isinstance(x.func, ast.Name) and x.func.id == f.id
                                         for x in ast.walk(local[0])) \
                             and not local[0].args.kwarg and not local[0].args.posonlyargs:
-                        hl = Helper(mod, None, local[0], cur.body)
+                        hl = Helper(mod, None, local[0], holder_)
                         return hl, None
                 return None
             if not self.is_candidate(h):
@@ -1742,6 +1759,7 @@ class Normaliser:
             changed = True
             rep.shapes += 1
         _renumber(fn)
+        params_all = {a_.arg for a_ in ast.walk(fn.args) if isinstance(a_, ast.arg)}
         stores: Dict[str, int] = {}
         for n in _walk_scope(fn):
             if isinstance(n, ast.Name) and isinstance(n.ctx, (ast.Store, ast.Del)):
@@ -1750,7 +1768,7 @@ class Normaliser:
         def block(stmts: List[ast.stmt]) -> List[ast.stmt]:
             nonlocal changed
             out: List[ast.stmt] = []
-            for st in stmts:
+            for k_idx, st in enumerate(stmts):
                 if isinstance(st, ScopeT):
                     out.append(st)
                     continue
@@ -1927,6 +1945,127 @@ class Normaliser:
                             changed = True
                             rep.shapes += 1
                             continue
+                # if n == 0: return v      followed by nothing but loops over range(n) and ``return v``:
+                # with n == 0 those loops do not run, the shortcut says nothing new
+                if isinstance(st, ast.If) and not st.orelse and len(st.body) == 1 and isinstance(st.body[0], ast.Return) \
+                        and isinstance(st.body[0].value, ast.Name) and k_idx + 1 < len(stmts):
+                    t0 = st.test
+                    n0 = None
+                    if isinstance(t0, ast.Compare) and len(t0.ops) == 1 and isinstance(t0.ops[0], ast.Eq) \
+                            and isinstance(t0.left, ast.Name) and isinstance(t0.comparators[0], ast.Constant) \
+                            and t0.comparators[0].value == 0 and type(t0.comparators[0].value) is int:
+                        n0 = t0.left.id
+                    elif isinstance(t0, ast.UnaryOp) and isinstance(t0.op, ast.Not) and isinstance(t0.operand, ast.Name):
+                        n0 = t0.operand.id
+                    rest0 = stmts[k_idx + 1:]
+                    v0 = st.body[0].value.id
+
+                    def over_range(e0: ast.AST) -> bool:
+                        return isinstance(e0, ast.Call) and isinstance(e0.func, ast.Name) and e0.func.id == "range" \
+                            and len(e0.args) == 1 and isinstance(e0.args[0], ast.Name) and e0.args[0].id == n0 \
+                            and "range" not in stores
+
+                    def zero_trip(s0: ast.stmt) -> bool:
+                        if isinstance(s0, ast.For) and not s0.orelse and over_range(s0.iter):
+                            return True
+                        if isinstance(s0, ast.Expr) and isinstance(s0.value, ast.Call) and isinstance(s0.value.func, ast.Attribute) \
+                                and s0.value.func.attr in ("extend", "update") and isinstance(s0.value.func.value, ast.Name) \
+                                and len(s0.value.args) == 1 and not s0.value.keywords \
+                                and isinstance(s0.value.args[0], (ast.GeneratorExp, ast.ListComp)) \
+                                and len(s0.value.args[0].generators) == 1 and over_range(s0.value.args[0].generators[0].iter):
+                            return True
+                        return False
+                    if n0 is not None and rest0 and isinstance(rest0[-1], ast.Return) and isinstance(rest0[-1].value, ast.Name) \
+                            and rest0[-1].value.id == v0 and rest0[:-1] and all(zero_trip(s0) for s0 in rest0[:-1]) \
+                            and stores.get(n0, 0) == 1 and stores.get(v0, 0) == 1:
+                        changed = True
+                        rep.shapes += 1
+                        continue
+                # i = 0; while i < len(X): e = X[i]; i += 1; BODY   ->   for e in X: BODY
+                # (what a list iterator does: the length is looked up again before every step)
+                if isinstance(st, ast.While) and not st.orelse and out and isinstance(out[-1], ast.Assign) \
+                        and len(out[-1].targets) == 1 and isinstance(out[-1].targets[0], ast.Name) \
+                        and isinstance(out[-1].value, ast.Constant) and out[-1].value.value == 0 \
+                        and type(out[-1].value.value) is int \
+                        and isinstance(st.test, ast.Compare) and len(st.test.ops) == 1 and isinstance(st.test.ops[0], ast.Lt) \
+                        and isinstance(st.test.left, ast.Name) and st.test.left.id == out[-1].targets[0].id \
+                        and isinstance(st.test.comparators[0], ast.Call) and isinstance(st.test.comparators[0].func, ast.Name) \
+                        and st.test.comparators[0].func.id == "len" and len(st.test.comparators[0].args) == 1 \
+                        and attr_path_(st.test.comparators[0].args[0]) and len(st.body) >= 2:
+                    iv_ = out[-1].targets[0].id
+                    seq_ = st.test.comparators[0].args[0]
+                    b0, b1 = st.body[0], st.body[1]
+                    get_ok = isinstance(b0, ast.Assign) and len(b0.targets) == 1 and isinstance(b0.targets[0], ast.Name) \
+                        and isinstance(b0.value, ast.Subscript) and ast.dump(b0.value.value) == ast.dump(seq_) \
+                        and isinstance(b0.value.slice, ast.Name) and b0.value.slice.id == iv_
+                    inc_ok = isinstance(b1, ast.AugAssign) and isinstance(b1.op, ast.Add) and isinstance(b1.target, ast.Name) \
+                        and b1.target.id == iv_ and isinstance(b1.value, ast.Constant) and b1.value.value == 1
+                    uses_i = [n_ for n_ in ast.walk(fn) if isinstance(n_, ast.Name) and n_.id == iv_]
+                    # the counter: its initialisation, the test, the subscript, the increment
+                    root_ = attr_path_(seq_)[0]
+                    rebinds_seq = any(isinstance(n_, ast.Name) and n_.id == root_ and not isinstance(n_.ctx, ast.Load)
+                                      for b_ in st.body for n_ in ast.walk(b_))
+                    if get_ok and inc_ok and len(uses_i) == 4 and not rebinds_seq and not any(
+                            isinstance(n_, ast.Continue) for b_ in st.body for n_ in ast.walk(b_)):
+                        out.pop()
+                        new_for = ast.copy_location(ast.For(target=b0.targets[0], iter=seq_, body=st.body[2:] or [
+                            ast.copy_location(ast.Pass(), st)], orelse=[]), st)
+                        ast.fix_missing_locations(new_for)
+                        out.extend(block([new_for]))
+                        changed = True
+                        rep.shapes += 1
+                        continue
+                # for e in X: ... e[0] ... e[1] ...   (e used through constant positions 0..k-1 only, all
+                # of them)  ->  for e_0, e_1 in X   (the elements are k-tuples: the positions are all
+                # the code looks at)
+                if isinstance(st, ast.For) and isinstance(st.target, ast.Name) and st.target.id not in params_all:
+                    e_ = st.target.id
+                    all_uses = [n_ for n_ in ast.walk(fn) if isinstance(n_, ast.Name) and n_.id == e_ and n_ is not st.target]
+                    subs_ = [n_ for b_ in st.body for n_ in ast.walk(b_) if isinstance(n_, ast.Subscript)
+                             and isinstance(n_.value, ast.Name) and n_.value.id == e_ and isinstance(n_.ctx, ast.Load)
+                             and isinstance(n_.slice, ast.Constant) and type(n_.slice.value) is int and n_.slice.value >= 0]
+                    ks_ = sorted({n_.slice.value for n_ in subs_})
+                    if subs_ and len(subs_) == len(all_uses) and ks_ == list(range(len(ks_))) and 2 <= len(ks_) <= 4 \
+                            and not any(isinstance(n_, ScopeT + CompT) and any(
+                                isinstance(m_, ast.Name) and m_.id == e_ for m_ in ast.walk(n_)) for b_ in st.body for n_ in ast.walk(b_)):
+                        taken_ = {n_.id for n_ in ast.walk(fn) if isinstance(n_, ast.Name)} | {
+                            a_.arg for a_ in ast.walk(fn.args) if isinstance(a_, ast.arg)}
+                        names_ = []
+                        for k_ in ks_:
+                            nm_ = "%s_%d" % (e_, k_)
+                            while nm_ in taken_:
+                                nm_ += "_"
+                            taken_.add(nm_)
+                            names_.append(nm_)
+
+                        class SubToName(ast.NodeTransformer):
+                            def visit_Subscript(self, nd: ast.Subscript) -> ast.AST:
+                                if any(nd is x_ for x_ in subs_):
+                                    return ast.copy_location(ast.Name(id=names_[nd.slice.value], ctx=ast.Load()), nd)  # type: ignore[attr-defined]
+                                self.generic_visit(nd)
+                                return nd
+                        st.body = [SubToName().visit(b_) for b_ in st.body]
+                        st.target = ast.copy_location(ast.Tuple(elts=[ast.copy_location(ast.Name(id=n_, ctx=ast.Store()), st.target)
+                                                                       for n_ in names_], ctx=ast.Store()), st.target)
+                        ast.fix_missing_locations(st)
+                        out.extend(block([st]))
+                        changed = True
+                        rep.shapes += 1
+                        continue
+                # setattr(x, "name", v)  ->  x.name = v     (a constant identifier that is not a dunder)
+                if isinstance(st, ast.Expr) and isinstance(st.value, ast.Call) and isinstance(st.value.func, ast.Name) \
+                        and st.value.func.id == "setattr" and len(st.value.args) == 3 and not st.value.keywords \
+                        and isinstance(st.value.args[1], ast.Constant) and isinstance(st.value.args[1].value, str) \
+                        and st.value.args[1].value.isidentifier() and not st.value.args[1].value.startswith("__") \
+                        and not any(isinstance(a_, ast.Starred) for a_ in st.value.args) \
+                        and "setattr" not in stores:
+                    tgt_ = ast.Attribute(value=st.value.args[0], attr=st.value.args[1].value, ctx=ast.Store())
+                    out.append(ast.copy_location(ast.Assign(targets=[ast.copy_location(tgt_, st)],
+                                                            value=st.value.args[2]), st))
+                    ast.fix_missing_locations(out[-1])
+                    changed = True
+                    rep.shapes += 1
+                    continue
                 # for T in (<literal>, ...): S   -> S once per element; with the body a single
                 # ``if c: ...; break`` (and an optional else) -> an if/elif chain
                 if isinstance(st, ast.For) and isinstance(st.iter, (ast.Tuple, ast.List)) and not st.iter.elts:
@@ -1951,8 +2090,13 @@ class Normaliser:
                                 self._record_class(getattr(fn, "_mod", ""), e_.func.id) is not None:
                             return all(lit(x_) for x_ in e_.args)
                         p__ = attr_path_(e_)
-                        return bool(p__) and p__[0] not in stores and p__[0] not in params_ and \
-                            (len(p__) == 1 or p__[0] not in ("self", "cls"))
+                        if p__ and len(p__) == 1:
+                            # a bare name the loop itself never rebinds has one value throughout
+                            return p__[0] not in loop_stores
+                        return bool(p__) and p__[0] not in stores and p__[0] not in params_ and p__[0] not in ("self", "cls")
+                    loop_stores = {n_.id for b_ in st.body + st.orelse for n_ in ast.walk(b_)
+                                   if isinstance(n_, ast.Name) and not isinstance(n_.ctx, ast.Load)} | {
+                        n_.name for b_ in st.body + st.orelse for n_ in ast.walk(b_) if isinstance(n_, ast.FunctionDef)}
                     outside = [n_ for n_ in ast.walk(fn) if isinstance(n_, ast.Name) and n_.id in tnames
                                and not _contains(st, n_)]
                     inner_stores = [n_ for b_ in st.body + st.orelse for n_ in ast.walk(b_)
@@ -2194,7 +2338,27 @@ class Normaliser:
                     changed = True
                     rep.shapes += 1
                     continue
-                # a, b = x, y
+                # a, b = [f(t) for t in (x, y)]   ->   a, b = [f(x), f(y)]   (a display of known length)
+                if isinstance(st, ast.Assign) and len(st.targets) == 1 and isinstance(st.targets[0], ast.Tuple) \
+                        and isinstance(st.value, (ast.ListComp, ast.GeneratorExp)) and len(st.value.generators) == 1 \
+                        and not st.value.generators[0].ifs and not st.value.generators[0].is_async \
+                        and isinstance(st.value.generators[0].target, ast.Name) \
+                        and isinstance(st.value.generators[0].iter, (ast.Tuple, ast.List)) \
+                        and len(st.value.generators[0].iter.elts) == len(st.targets[0].elts) \
+                        and all(isinstance(e_, (ast.Name, ast.Constant)) for e_ in st.value.generators[0].iter.elts) \
+                        and not any(isinstance(n_, ScopeT + CompT) for n_ in ast.walk(st.value.elt)):
+                    g_ = st.value.generators[0]
+                    elts_ = [_Subst({g_.target.id: e_}).visit(copy.deepcopy(st.value.elt)) for e_ in g_.iter.elts]
+                    st.value = ast.copy_location(ast.Tuple(elts=elts_, ctx=ast.Load()), st.value)
+                    ast.fix_missing_locations(st)
+                    out.extend(block([st]))
+                    changed = True
+                    rep.shapes += 1
+                    continue
+                # a, b = x, y     (also from a list display)
+                if isinstance(st, ast.Assign) and len(st.targets) == 1 and isinstance(st.targets[0], ast.Tuple) \
+                        and isinstance(st.value, ast.List) and len(st.value.elts) == len(st.targets[0].elts):
+                    st.value = ast.copy_location(ast.Tuple(elts=st.value.elts, ctx=ast.Load()), st.value)
                 if isinstance(st, ast.Assign) and len(st.targets) == 1 and isinstance(st.targets[0], ast.Tuple) \
                         and isinstance(st.value, ast.Tuple) and len(st.value.elts) == len(st.targets[0].elts) \
                         and all(isinstance(t, ast.Name) for t in st.targets[0].elts) \
@@ -2326,6 +2490,17 @@ class Normaliser:
             def visit_FunctionDef(self, node: ast.FunctionDef) -> ast.AST:
                 return self.generic_visit(node) if node is fn else node
 
+            def visit_BinOp(self, node: ast.BinOp) -> ast.AST:
+                nonlocal changed
+                self.generic_visit(node)
+                # "abc" + "def"  (what is left of a name built from a literal table)
+                if isinstance(node.op, ast.Add) and isinstance(node.left, ast.Constant) and isinstance(node.right, ast.Constant) \
+                        and isinstance(node.left.value, str) and isinstance(node.right.value, str):
+                    changed = True
+                    rep.shapes += 1
+                    return ast.copy_location(ast.Constant(value=node.left.value + node.right.value), node)
+                return node
+
             def visit_Compare(self, node: ast.Compare) -> ast.AST:
                 nonlocal changed
                 self.generic_visit(node)
@@ -2386,6 +2561,9 @@ class Normaliser:
                     rep.shapes += 1
                     return ast.copy_location(ast.Attribute(value=node.args[0], attr=node.args[1].value, ctx=ast.Load()), node)
                 fname = f.attr if isinstance(f, ast.Attribute) else f.id if isinstance(f, ast.Name) else None
+                if isinstance(f, ast.Name) and f.id in norm_absimp and stores.get(f.id, 0) == 0 and \
+                        norm_absimp[f.id][0] in ("operator", "itertools", "functools") and norm_absimp[f.id][1]:
+                    fname = norm_absimp[f.id][1]        # ``from operator import attrgetter as _ag``
                 plain = not node.keywords and not any(isinstance(a_, ast.Starred) for a_ in node.args)
                 qual_ok = isinstance(f, ast.Name) or (isinstance(f, ast.Attribute) and isinstance(f.value, ast.Name)
                                                       and f.value.id in ("operator", "itertools", "functools"))
@@ -2763,8 +2941,13 @@ class Normaliser:
         # names used by nested functions / lambdas escape (closures see later values)
         for n in _walk_scope(fn):
             if isinstance(n, (ast.FunctionDef, ast.Lambda)):
+                # (a name the nested function binds itself - a parameter, a local without
+                # nonlocal - is its own)
+                own_ = {a_.arg for a_ in ast.walk(n.args) if isinstance(a_, ast.arg)}
+                if isinstance(n, ast.FunctionDef) and not any(isinstance(m, (ast.Nonlocal, ast.Global)) for m in ast.walk(n)):
+                    own_ |= {m.id for m in _walk_scope(n) if isinstance(m, ast.Name) and not isinstance(m.ctx, ast.Load)}
                 for m in ast.walk(n):
-                    if isinstance(m, ast.Name):
+                    if isinstance(m, ast.Name) and m.id not in own_:
                         escaping.add(m.id)
         stable = {p for p in params if stores.get(p, 0) == 0} | \
             {n for n, c in stores.items() if c == 1 and n not in params}
@@ -2866,6 +3049,19 @@ class Normaliser:
                     pur = 0
         last = max(j for j, _ in after)
         using = sorted({j for j, _ in after})
+        # locals the value reads that are bound more than once: none of them may be bound again
+        # between the definition and the last use (``e = xs[i]; i += 1; use(e)``)
+        own_of_val = {n.id for n in ast.walk(val) if isinstance(n, ast.Name) and not isinstance(n.ctx, ast.Load)} | {
+            a_.arg for n in ast.walk(val) if isinstance(n, ast.Lambda) for a_ in ast.walk(n.args) if isinstance(a_, ast.arg)}
+        moving = {n.id for n in ast.walk(val) if isinstance(n, ast.Name) and isinstance(n.ctx, ast.Load)} \
+            - stable - {tgt} - own_of_val
+        if moving:
+            for j in range(i + 1, last + 1):
+                for n in [stmts[j]] + list(ast.walk(stmts[j])):
+                    if isinstance(n, ast.Name) and n.id in moving and not isinstance(n.ctx, ast.Load):
+                        return False
+                    if isinstance(n, ast.ExceptHandler) and n.name in moving:
+                        return False
 
         def header_ids(st: ast.stmt) -> Set[int]:
             ids: Set[int] = set()
@@ -3319,13 +3515,42 @@ class Normaliser:
                         visit(st.orelse, cls)
             visit(tree.body, None)
 
+    def dead_local_defs(self, fn: ast.FunctionDef) -> bool:
+        """a function defined inside ``fn`` that the pinned tree does not have and that nothing
+        refers to any more (every call was spliced) is dropped"""
+        if self.known is None:
+            return False
+        q = getattr(fn, "_qual", None)
+        mod = getattr(fn, "_mod", "")
+        if not q:
+            return False
+        changed = False
+        for owner in [fn] + [n for n in _walk_scope(fn)]:
+            for fld in ("body", "orelse", "finalbody"):
+                lst = getattr(owner, fld, None)
+                if not isinstance(lst, list):
+                    continue
+                for st in list(lst):
+                    if isinstance(st, ast.FunctionDef) and st is not fn and not st.decorator_list \
+                            and ("%s:%s.%s" % (mod, q, st.name)) not in self.known:
+                        refs = [x for x in ast.walk(fn) if isinstance(x, ast.Name) and x.id == st.name
+                                and not any(x is y for y in ast.walk(st))]
+                        if not refs:
+                            lst.remove(st)
+                            if not lst:
+                                lst.append(ast.copy_location(ast.Pass(), st))
+                            changed = True
+                            self.report.dropped.append("%s:%s.%s" % (mod, q, st.name)) if hasattr(self.report, "dropped") else None
+        return changed
+
     def _local_passes_fn(self, fn: ast.FunctionDef) -> None:
         self._attr_sites = None
         for _ in range(4):
+            x = self.dead_local_defs(fn)
             c = self.copyprop(fn)
             d = self.shapes(fn)
             g = self.records(fn)
-            if not (c or d or g):
+            if not (c or d or g or x):
                 break
 
     def _local_passes(self) -> None:
@@ -3773,6 +3998,33 @@ class Normaliser:
                     stmts[k] = ast.copy_location(ast.If(test=e_.test, body=[mk(e_.body)], orelse=[mk(e_.orelse)]), st)
                     self.report.shapes += 1
                     return True
+            for k, st in enumerate(stmts):
+                # if c: def g(..): A   else: def g(..): B     followed by the only use of g: the
+                # statement that uses it goes into the branches (each then calls its own g)
+                if not isinstance(st, ast.If) or k + 1 >= len(stmts):
+                    continue
+                lv0 = leaves(st)
+                if lv0 is None or not (2 <= len(lv0) <= 4):
+                    continue
+                if not all(b_ and isinstance(b_[-1], ast.FunctionDef) for b_ in lv0):
+                    continue
+                gname = lv0[0][-1].name
+                if not all(b_[-1].name == gname for b_ in lv0):
+                    continue
+                nxt0 = stmts[k + 1]
+                if not isinstance(nxt0, (ast.Expr, ast.Assign, ast.Return)):
+                    continue
+                defs0 = [n for n in ast.walk(fn) if isinstance(n, ast.FunctionDef) and n.name == gname]
+                stores0 = [n for n in ast.walk(fn) if isinstance(n, ast.Name) and n.id == gname and not isinstance(n.ctx, ast.Load)]
+                loads0 = [n for n in ast.walk(fn) if isinstance(n, ast.Name) and n.id == gname and isinstance(n.ctx, ast.Load)]
+                here0 = [n for n in ast.walk(nxt0) if isinstance(n, ast.Name) and n.id == gname and isinstance(n.ctx, ast.Load)]
+                if len(defs0) != len(lv0) or stores0 or not here0 or len(here0) != len(loads0):
+                    continue
+                for b_ in lv0:
+                    b_.append(copy.deepcopy(nxt0))
+                del stmts[k + 1]
+                self.report.shapes += 1
+                return True
             for k, st in enumerate(stmts):
                 if not isinstance(st, ast.If) or k + 1 >= len(stmts):
                     continue
@@ -4267,6 +4519,173 @@ class Normaliser:
             return None
         return params, stored
 
+    def delegating_overrides(self) -> None:
+        """a method the pinned tree does not have whose whole body hands its own arguments, in
+        order, to ``super().<same name>(...)`` and returns the result is the inherited method"""
+        if self.known is None:
+            return
+        for mod, tree in self.trees.items():
+            classes: List[Tuple[str, ast.ClassDef]] = []
+
+            def collect(stmts: List[ast.stmt], prefix: str) -> None:
+                for st in stmts:
+                    if isinstance(st, ast.ClassDef):
+                        classes.append((prefix + st.name, st))
+                        collect(st.body, prefix + st.name + ".")
+            collect(tree.body, "")
+            for cq, c in classes:
+                if not c.bases:
+                    continue
+                for m in [b for b in c.body if isinstance(b, ast.FunctionDef)]:
+                    key = "%s:%s.%s" % (mod, cq, m.name)
+                    if key in self.known or m.name == "__init__":
+                        continue
+                    decos = _decorators(m)
+                    if set(decos) - {"classmethod"}:
+                        continue
+                    body = _body_wo_doc(m)
+                    if len(body) != 1 or not isinstance(body[0], (ast.Return, ast.Expr)) or body[0].value is None:
+                        continue
+                    call = body[0].value
+                    if not (isinstance(call, ast.Call) and isinstance(call.func, ast.Attribute) and call.func.attr == m.name
+                            and isinstance(call.func.value, ast.Call) and isinstance(call.func.value.func, ast.Name)
+                            and call.func.value.func.id == "super" and not call.func.value.args):
+                        continue
+                    a = m.args
+                    if a.defaults or a.kw_defaults and any(d is not None for d in a.kw_defaults) or a.posonlyargs:
+                        continue
+                    want: List[str] = [x.arg for x in a.args[1:]]
+                    got: List[str] = []
+                    ok = True
+                    for x in call.args:
+                        if isinstance(x, ast.Name):
+                            got.append(x.id)
+                        elif isinstance(x, ast.Starred) and isinstance(x.value, ast.Name) and a.vararg \
+                                and x.value.id == a.vararg.arg:
+                            got.append("*")
+                        else:
+                            ok = False
+                    if a.vararg:
+                        want.append("*")
+                    kws = {k.arg: k.value for k in call.keywords}
+                    for ko in a.kwonlyargs:
+                        if not (ko.arg in kws and isinstance(kws[ko.arg], ast.Name) and kws[ko.arg].id == ko.arg):
+                            ok = False
+                    if a.kwarg and not (None in kws and isinstance(kws[None], ast.Name) and kws[None].id == a.kwarg.arg):
+                        ok = False
+                    if len(kws) != len(a.kwonlyargs) + (1 if a.kwarg else 0):
+                        ok = False
+                    if not ok or got != want:
+                        continue
+                    c.body.remove(m)
+                    if not c.body:
+                        c.body.append(ast.copy_location(ast.Pass(), m))
+                    self.report.shapes += 1
+
+    def record_tuples(self) -> None:
+        """a private ``NamedTuple`` class the pinned tree does not have, without methods: an
+        instance *is* the tuple of its fields.  Constructor calls that are stored or handed on
+        (``queue.append(R(a, b))``) become tuple displays; a loop variable or local used only
+        through fields of exactly that class reads ``v[i]``.  (Records that never leave the function
+        are replaced by their fields in ``records``.)"""
+        if not self.vocab.get("functions"):
+            return
+        for mod, tree in self.trees.items():
+            for c in [n for n in tree.body if isinstance(n, ast.ClassDef)]:
+                rec = self._record_class(mod, c.name)
+                if rec is None or not c.bases or any(isinstance(b, ast.FunctionDef) for b in c.body):
+                    continue
+                fields, _defaults, _c = rec
+                # field names must not be attributes of anything else in this module
+                other_attr = {n.attr for n in ast.walk(tree) if isinstance(n, ast.Attribute)
+                              and isinstance(n.value, ast.Name) and n.value.id in ("self", "cls")}
+                if set(fields) & other_attr:
+                    continue
+                done = False
+                # only when every instance that is made goes straight into a collection (a queue of
+                # records): other uses are the business of ``records``
+                ctor_calls = [n for n in ast.walk(tree) if isinstance(n, ast.Call) and isinstance(n.func, ast.Name)
+                              and n.func.id == c.name]
+                escaping_ = set()
+                for n in ast.walk(tree):
+                    if isinstance(n, ast.Call) and isinstance(n.func, ast.Attribute) and n.func.attr in (
+                            "append", "add", "appendleft", "put", "insert"):
+                        escaping_ |= {id(a_) for a_ in n.args}
+                    elif isinstance(n, (ast.List, ast.Set)):
+                        escaping_ |= {id(e_) for e_ in n.elts}
+                if not ctor_calls or any(id(x) not in escaping_ for x in ctor_calls):
+                    continue
+                for fn in [n for n in ast.walk(tree) if isinstance(n, ast.FunctionDef)]:
+                    # variables used only through fields of R
+                    cands: Dict[str, List[ast.Attribute]] = {}
+                    bad: Set[str] = set()
+                    for n in ast.walk(fn):
+                        for ch in ast.iter_child_nodes(n):
+                            if isinstance(ch, ast.Name) and isinstance(ch.ctx, ast.Load):
+                                if isinstance(n, ast.Attribute) and n.value is ch and n.attr in fields \
+                                        and isinstance(n.ctx, ast.Load):
+                                    cands.setdefault(ch.id, []).append(n)
+                                else:
+                                    bad.add(ch.id)
+                    loop_vars = {t_.id for l_ in ast.walk(fn) if isinstance(l_, (ast.For, ast.comprehension))
+                                 for t_ in [l_.target] if isinstance(t_, ast.Name)}
+                    for v, uses in cands.items():
+                        if v in bad or v in ("self", "cls") or v not in loop_vars:
+                            continue
+                        # (bound by a for loop / comprehension: an element of a collection of records;
+                        # a local bound to a record is replaced by its fields in ``records``)
+                        for a in uses:
+                            idx = fields.index(a.attr)
+                            sub = ast.Subscript(value=a.value, slice=ast.Constant(value=idx), ctx=ast.Load())
+                            ast.copy_location(sub, a)
+                            ast.copy_location(sub.slice, a)
+                            for par in ast.walk(fn):
+                                for fld, val in ast.iter_fields(par):
+                                    if val is a:
+                                        setattr(par, fld, sub)
+                                    elif isinstance(val, list):
+                                        for i_, x in enumerate(val):
+                                            if x is a:
+                                                val[i_] = sub
+                        done = True
+
+                class K(ast.NodeTransformer):
+                    # only where the record is put into a collection (append / add / a display)
+                    def _conv(self_k, node: ast.AST) -> ast.AST:
+                        nonlocal done
+                        if isinstance(node, ast.Call) and isinstance(node.func, ast.Name) and node.func.id == c.name:
+                            args = self._record_args(rec, node)
+                            if args is not None:
+                                done = True
+                                return ast.copy_location(ast.Tuple(elts=list(args), ctx=ast.Load()), node)
+                        return node
+
+                    def visit_Call(self_k, node: ast.Call) -> ast.AST:
+                        self_k.generic_visit(node)
+                        if isinstance(node.func, ast.Attribute) and node.func.attr in ("append", "add", "appendleft", "put", "insert"):
+                            node.args = [self_k._conv(a_) for a_ in node.args]
+                        return node
+
+                    def visit_List(self_k, node: ast.List) -> ast.AST:
+                        self_k.generic_visit(node)
+                        node.elts = [self_k._conv(e_) for e_ in node.elts]
+                        return node
+
+                    def visit_Set(self_k, node: ast.Set) -> ast.AST:
+                        self_k.generic_visit(node)
+                        node.elts = [self_k._conv(e_) for e_ in node.elts]
+                        return node
+                for st in tree.body:
+                    if st is not c:
+                        K().visit(st)
+                if done:
+                    refs = sum(1 for n in ast.walk(tree) if isinstance(n, ast.Name) and n.id == c.name
+                               and not any(n is x for x in ast.walk(c)))
+                    if refs == 0:
+                        tree.body.remove(c)
+                    ast.fix_missing_locations(tree)
+                    self.report.shapes += 1
+
     def helper_objects(self) -> None:
         """private classes the pinned tree does not have that only package a piece of control flow:
 
@@ -4710,7 +5129,9 @@ class Normaliser:
         self.flatten_new_bases()
         self.specialise_inherited()
         self.restore_signatures()
+        self.delegating_overrides()
         self.helper_objects()
+        self.record_tuples()
         self.module_constants()
         self.parameter_names()
         # helpers are brought into normal form before they are inlined (merged guards, no
